@@ -3337,6 +3337,11 @@ def gen_C16_order(rng):
         n = ctx.fresh("x")
         ctx.emit("apply %s %s %s a0 a1" % (n, res_forest.name, op))
         ctx.edges[n] = res_forest
+        if rng.random() < 0.5:
+            # unary operations across the two forests obey the same rule
+            c = ctx.fresh("c")
+            ctx.emit("unary %s F1 copy %s" % (c, rng.choice(["a0", "b0"])))
+            ctx.edges[c] = fs[1]
         return n
 
     def perm():
